@@ -3,8 +3,11 @@
 Roles are derived from data flow, not from the spelling of locals / attributes of the calculator: the per-task state class is the class whose instances the calculator stores under the
 task key; the running count is the local handed to the state's finishing routine; the attributes of the state (carried total, pending samples, interval, start, sample type, has-value
 flag) are the ones those values flow into. The small methods of the state class are decided on VALUES: their bodies are interpreted over representative field values
-(sa.minieval on the extracted statements, never a call into the repository). Only the field names of `Sample` (the vocabulary of the property) and the class / entry point names
-`ThroughputCalculator.calculate` are taken literally."""
+(sa.minieval on the extracted statements, never a call into the repository). The same interpreter decides what `calculate()` hands to the two per-task routines (both stubbed):
+grouping by task, merge of the carried-over samples and order of the batch are decided on the VALUE of that batch for representative streams, whatever spells them (chain + sort,
+sort + heapq.merge, concatenation, conditional expressions, comprehensions, extracted helpers); the structural reading of those statements is only the fallback for shapes the
+interpreter cannot evaluate. A construction of a tuple-like record class (NamedTuple) is the tuple of its fields. Only the field names of `Sample` (the vocabulary of the property)
+and the class / entry point names `ThroughputCalculator.calculate` are taken literally."""
 from __future__ import annotations
 
 import ast
@@ -472,6 +475,27 @@ class _Model:
                 if bool(r) != isinstance(e.op, ast.And):
                     return r
             return r
+        if isinstance(e, (ast.ListComp, ast.SetComp, ast.GeneratorExp, ast.DictComp)):
+            out = []
+
+            def rec(i, env_):
+                if i == len(e.generators):
+                    out.append((self.ev(e.key, env_), self.ev(e.value, env_)) if isinstance(e, ast.DictComp) else self.ev(e.elt, env_))
+                    return
+                gen = e.generators[i]
+                if gen.is_async:
+                    raise CannotEval("async comprehension")
+                for item in _elements(self.ev(gen.iter, env_)):
+                    env3 = dict(env_)
+                    self._store(gen.target, item, env3)
+                    if all(self.ev(c, env3) for c in gen.ifs):
+                        rec(i + 1, env3)
+
+            rec(0, dict(env))
+            try:
+                return dict(out) if isinstance(e, ast.DictComp) else (set(out) if isinstance(e, ast.SetComp) else out)
+            except TypeError as x:
+                raise CannotEval(f"{u(e)[:60]}: {x}")
         env2 = dict(env)
 
         def bound(v):
@@ -505,7 +529,7 @@ class _Model:
             def visit_IfExp(self, n):
                 return bound(M.ev(n, env2))
 
-            visit_BoolOp = visit_IfExp
+            visit_BoolOp = visit_ListComp = visit_SetComp = visit_GeneratorExp = visit_DictComp = visit_IfExp
 
             def visit_List(self, n):
                 self.generic_visit(n)
@@ -1391,7 +1415,8 @@ def run(chk):
         "only written together by the bucket-finishing routine; the unprocessed list is merged into the next batch and cleared once merged; interval is "
         "monotone and division is guarded; the emitted sample type is the monotone per-task type; runner throughput is passed through on `is None` dispatch; unit is '<ops>/s'. "
         "Roles (state class, running count, attributes of the state, emit sites incl. extracted tuple helpers) are derived from data flow; the small methods of the per-task state "
-        "are decided on representative values (interpreted statement by statement, no repository code runs). "
+        "are decided on representative values (interpreted statement by statement, no repository code runs); so are grouping, merge and order of the batch calculate() hands to the "
+        "per-task routines (calculate() interpreted with both routines stubbed) and the one-value-per-sample clause of the pass-through routine. "
         "After the defect hunt: a worker drains its sampler before every overwrite of it (O6.6); necessary conditions for a per-task sticky pass-through decision (O6.7), a "
         "batch-independent unit source (O6.8) and a low-water-mark bucket-closing time over the producers (O6.9) - the last three are falsified on the pinned tree (known findings F49-F51)."
     )
@@ -2071,7 +2096,7 @@ def run(chk):
             k_ = sum(1 for _, v_ in bs for x in v_ if x is s_)
             if k_ != 1:
                 return False, (f"of five interleaved samples of two tasks the one of task {s_.fields['task']!r} at t={s_.fields[_ABS]} ({s_.fields[_OPS]} ops) reaches the per-task routines "
-                               f"{k_} times: " + ("its operations are never counted" if k_ == 0 else "its operations are counted more than once"))
+                               f"{k_} times: " + ("that request is part of no throughput value" if k_ == 0 else "its operations are counted more than once"))
         for k_, v_ in bs:
             tasks_ = {x.fields["task"] for x in v_}
             if len(tasks_) > 1 or (k_ is not None and tasks_ and k_ not in tasks_):
@@ -2937,3 +2962,9 @@ _var("refactored: sample loop over an index", "keep", None,
 _var("refactored: calculator counts the samples it has seen (additive)", "keep", None,
      [("    def __init__(self):\n        self.task_stats = {}\n", "    def __init__(self):\n        self.task_stats = {}\n        self.samples_seen = 0\n        self.logger = logging.getLogger(__name__)\n"),
       ("        samples_per_task = {}\n", "        samples_per_task = {}\n        self.samples_seen += len(samples)\n        self.logger.debug(\"Calculating throughput for [%d] samples.\", len(samples))\n")])
+_var("refactored: grouping by a dict comprehension over the set of tasks", "keep", None,
+     [("        samples_per_task = {}\n        # first we group all samples by task (operation).\n        for sample in samples:\n" + _GROUP_OLD,
+       "        # first we group all samples by task (operation).\n        samples_per_task = {k: [sample for sample in samples if sample.task == k] for k in {sample.task for sample in samples}}\n")])
+_var("defect in a refactored shape: comprehension grouping leaves out requests without operations", "break", "O6.1",
+     [("        samples_per_task = {}\n        # first we group all samples by task (operation).\n        for sample in samples:\n" + _GROUP_OLD,
+       "        # first we group all samples by task (operation).\n        samples_per_task = {k: [sample for sample in samples if sample.task == k and sample.total_ops] for k in {sample.task for sample in samples}}\n")])
